@@ -170,6 +170,7 @@ class Contract:
         self.decreases_entry = d.get('decreases', None)
         self.ghost_out = d.get('ghost_out', {})   # name -> (rank, [shape exprs]): ghost arrays the postcondition may mention
         self.alltoall = d.get('alltoall', None)   # (chunk size expr, [chunk lens exprs]) for the Alltoall issued by this function
+        self.allgather = d.get('allgather')   # (chunk expr, [lens exprs, may mention r]) for MPI_Allgather
         self.creates = d.get('creates', {})   # attributes of self the method creates: name -> sort spec (fresh values constrained by ensures)
         self.allow_negative_index = d.get('allow_negative_index', False)
         self.interp_src = d.get('interp_src', None)   # (spline param, data param): records what the spline now interpolates
